@@ -592,6 +592,26 @@ def backward_cores(run, m, F, E, L):
                     und.append('the search window is not decided to start inside the string')
                 if form == 'needle' and not (isinstance(x[4], PtrV) and x[4].obj == 'NEEDLE' and s2.is_eq0(x[4].off) is True and s2.is_eq0(x[5] - nl) is True):
                     p3.append('the search is not for (substr, count)')
+            # a comparison made directly on the text (a scan written out instead of a search core): the compared range lies inside
+            # the text and its terminator - a range that begins in front of the text, or ends beyond the terminator, is an
+            # out-of-bounds read whatever the answer then is.  Findings only with a model of the inputs (a carried cursor counts
+            # through its first-iteration value).
+            for x in s2.events:
+                if x[0] != 'cmp' or x[4] is None:
+                    continue
+                for pv in (x[2], x[3]):
+                    if not (isinstance(pv, PtrV) and pv.obj == sto.obj):
+                        continue
+                    rel = pv.off - sto.off
+                    for d, what in ((-rel - 1, 'begins in front of the text'), (rel + x[4] - s - 2, 'ends beyond the terminator of the text')):
+                        if s2.is_ge0(-d - 1) is True:
+                            continue
+                        env = s2.find_model([d, x[4]], lambda v: v[0] >= 0 and v[1] >= 1)
+                        if env is not None:
+                            msg = ('the comparison at line %d covers %r unit(s) at offset %r of the text (size %r): the range %s; witness %s' %
+                                   (x[1].line, x[4], rel, s, what, own.fmt_env(env)))
+                            if not any(q.startswith('the comparison at line %d ' % x[1].line) for q in p3):
+                                p3.append(msg)
             mt = s2.flags.get('match')
             if o.kind == 'backedge':
                 nb += 1
